@@ -207,6 +207,23 @@ fn run(name: &str) -> String {
             }
             format!("image q(0.75)={:?} | streamed: {} | random/merge: {}", img, found, found2)
         }
+        "td_quantile_ulp" => {
+            // many identical values: every quantile must be that value (min == max)
+            let mut worst = String::from("none");
+            let mut bad = 0;
+            for &v in &[0.1f64, 19.99, 1e-7, 12345.678, -3.3] {
+                for &k in &[10u16, 50, 100, 200] {
+                    let mut t = TDigestMut::new(k);
+                    for _ in 0..20000 { t.update(v); }
+                    let (mn, mx) = (t.min_value().unwrap(), t.max_value().unwrap());
+                    for i in 0..=1000 {
+                        let q = t.quantile(i as f64 / 1000.0).unwrap();
+                        if q < mn || q > mx { bad += 1; if worst == "none" { worst = format!("v={v} k={k} quantile({})={:e} outside [{:e},{:e}]", i as f64 / 1000.0, q, mn, mx); } }
+                    }
+                }
+            }
+            format!("{} of 20020 quantiles outside [min,max]; first: {}", bad, worst)
+        }
         "td_cdf_empty" => {
             let mut t = TDigestMut::new(100);
             for i in 0..100 { t.update(i as f64); }
